@@ -5,6 +5,7 @@
 package c02oracle
 
 import (
+	"bytes"
 	"context"
 	"errors"
 	"io"
@@ -48,24 +49,45 @@ func A(k string) templ.Attributes {
 	return AttrsOf(V[k])
 }
 
-// AttrsOf parses "name=value,flag,off=!": string values, true booleans, and `!` for false.
+// AttrsOf parses "name=value,flag,off=!,p=&,q=&!,r=*text,n=*": string values, true booleans, `!` for false, `&` / `&!`
+// for a *bool pointing to true / false, `*text` for a *string, and a bare `*` for a nil *string.
 func AttrsOf(spec string) templ.Attributes {
+	a, _ := AttrsDesc(spec)
+	return a
+}
+
+// AttrsDesc also describes the map for the Lean model of RenderAttributes: key -> "s~<value>", "b~1", "bp~0", "sp~<value>", "spn".
+func AttrsDesc(spec string) (templ.Attributes, map[string][2]string) {
 	a := templ.Attributes{}
+	d := map[string][2]string{}
 	if spec == "" {
-		return a
+		return a, d
 	}
 	for _, p := range strings.Split(spec, ",") {
 		if i := strings.IndexByte(p, '='); i >= 0 {
-			if p[i+1:] == "!" {
-				a[p[:i]] = false
-			} else {
-				a[p[:i]] = p[i+1:]
+			k, v := p[:i], p[i+1:]
+			switch {
+			case v == "!":
+				a[k], d[k] = false, [2]string{"b", "0"}
+			case v == "&":
+				t := true
+				a[k], d[k] = &t, [2]string{"bp", "1"}
+			case v == "&!":
+				f := false
+				a[k], d[k] = &f, [2]string{"bp", "0"}
+			case v == "*":
+				a[k], d[k] = (*string)(nil), [2]string{"spn", ""}
+			case strings.HasPrefix(v, "*"):
+				sv := v[1:]
+				a[k], d[k] = &sv, [2]string{"sp", sv}
+			default:
+				a[k], d[k] = v, [2]string{"s", v}
 			}
 		} else {
-			a[p] = true
+			a[p], d[p] = true, [2]string{"b", "1"}
 		}
 	}
-	return a
+	return a, d
 }
 
 type SegComp struct {
@@ -79,14 +101,31 @@ func (c SegComp) Render(ctx context.Context, w io.Writer) error {
 	}
 	children := templ.GetChildren(ctx)
 	ctx = templ.ClearChildren(ctx)
+	// Some components render their children into a writer of their own first and copy the result to the page (a
+	// component that caches, measures or post-processes its block): the block must write to the writer it is GIVEN.
+	buffered := len(c.Segs) >= 2 && len(strings.Join(c.Segs, ""))%2 == 1
 	for i, s := range c.Segs {
+		var own bytes.Buffer
+		var ownErr error
+		last := i == len(c.Segs)-1
+		if buffered && !last {
+			ownErr = children.Render(ctx, &own)
+		}
 		if _, err := io.WriteString(w, s); err != nil {
 			return err
 		}
-		if i < len(c.Segs)-1 {
-			if err := children.Render(ctx, w); err != nil {
+		if last {
+			break
+		}
+		if buffered {
+			if _, err := w.Write(own.Bytes()); err != nil {
 				return err
 			}
+			if ownErr != nil {
+				return ownErr
+			}
+		} else if err := children.Render(ctx, w); err != nil {
+			return err
 		}
 	}
 	return nil
